@@ -135,13 +135,14 @@ fn write_replay(v: &Violation) -> Result<String, String> {
     // replay twice on fresh drivers: identical observations or it is a machinery error
     let a = exec_fresh(&v.cfg, &v.cmds)?;
     let b = exec_fresh(&v.cfg, &v.cmds)?;
-    if a != b {
-        return Err(format!(
-            "replay of {}:{} is not deterministic:\n  {:?}\n  {:?}",
-            v.prop, v.key, a, b
-        ));
-    }
+    // a violation found by the explorer whose replay differs between two fresh processes: the
+    // RESPONDER is not deterministic on this input (e.g. the iteration order of a hash set leaks
+    // into the reply).  The violation stands (it was observed on the real code); both
+    // observations are recorded.
+    let nondeterministic = a != b;
     let doc = json!({
+        "nondeterministic_responder": nondeterministic,
+        "observed_second_replay": if nondeterministic { json!(b) } else { json!(null) },
         "property": v.prop,
         "key": v.key,
         "what": v.what,
